@@ -333,8 +333,13 @@ func genCase(r *rand.Rand, i int) Case {
 	case k < 9:
 		c.Kind = "login"
 		d, _ := c10.GenDialogue(r, c10.GenOpts{})
-		d.Password = c.Password
-		if d.Auth == "ssh" {
+		// unconfigured credentials stay unconfigured
+		if d.Password != "" {
+			d.Password = c.Password
+		} else {
+			c.Password = ""
+		}
+		if d.Auth == "ssh" && d.Passphrase != "" {
 			d.Passphrase = c.Passphrase
 		} else {
 			c.Passphrase = ""
@@ -460,6 +465,8 @@ func escDevice(host, nl, variant, deviceSecret, cmd string) *devsim.CLI {
 				return devsim.Reply{NewMode: "priv"}
 			case "refuses":
 				return devsim.Reply{Out: []devsim.Token{devsim.T("% No password set" + nl)}}
+			case "invalid":
+				return devsim.Reply{Out: []devsim.Token{devsim.T("       ^" + nl + "% Invalid input detected at '^' marker." + nl)}}
 			}
 			return devsim.Reply{Ask: ask(3)}
 		case mode == "priv" && line == "enable":
@@ -760,6 +767,9 @@ func Run(mc mon.Case) mon.Result {
 	if len(s.argv) > 0 {
 		obs["child_argv_inspected"] = 1
 	}
+	if c.Fault != nil && c.Fault.Variant != "" {
+		obs["hook_escalations_refused_with_failure_text"] = 1
+	}
 	// error values handed back to the caller are not log messages: a secret in one is recorded as an
 	// observation (it becomes a violation above as soon as the library itself logs that error)
 	var retTags []string
@@ -822,7 +832,7 @@ func init() {
 			// shell after login echoes what is typed at its prompt, as shells do)
 			k := 0
 			for _, d := range c10.Sweep(r) {
-				if !c10.HasNotice(&d) && c10.LongestBanner(&d) <= d.PSD {
+				if !c10.HasNotice(&d) && c10.LongestBanner(&d) <= d.PSD && !c10.HasCredentialWordLines(&d) || d.Password == "" {
 					continue
 				}
 				c := genCase(r, 0)
@@ -838,6 +848,7 @@ func init() {
 				k++
 			}
 			cs = append(cs, genFaultCases(r, tier)...)
+			cs = append(cs, genRefusalCases(r)...)
 			return cs
 		},
 		Run: Run,
